@@ -72,6 +72,7 @@ func CheckTable(d *FileDump, e *ExpTable, srs *SRS) *Mismatch {
 	}
 	for i := range e.Columns {
 		a, b := t.Columns[i], e.Columns[i]
+		b.AutoInc = false // not visible in PRAGMA table_info, not part of the comparison
 		if a.Name != b.Name || !strings.EqualFold(a.Type, b.Type) || a.NotNull != b.NotNull || a.PK != b.PK {
 			return mm("schema", "table %q column %d is %+v, source has %+v", e.Name, i, a, b)
 		}
